@@ -20,7 +20,7 @@ HYPER = G.HYPERFRAME
 NTUPLES = 64 * 26 * 51          # (HSN xor T1R, T2, T3)
 
 BOUND = ("C half (rfch_get_params of firmware layer1/rfch.c with a hopping dedicated channel in l1s.dedicated; only the returned ARFCN is observed; "
-         "MA = 64 distinct 16-bit values), ASan+UBSan build. Fixed part: about 9 000 boundary points compared in Python with spec.mai_45002 "
+         "MA = 64 distinct 16-bit values), ASan+UBSan build. Fixed part: about 7 300 boundary points compared in Python with spec.mai_45002 "
          "(N in {1,2,3,4,5,7,8,9,15,16,17,31,32,33,63,64}, HSN in {0,1,2,31,32,62,63}, MAIO in {0,1,N-1,63}, FN 0, 1, last frame of the hyperframe, "
          "around multiples of 1326, the T1R wrap at 64*1326 and 3000 fixed-seed random points), the same number of points of the in-harness C "
          "reference compared with spec.mai_45002, then inside the harness: for N = 64 every (HSN xor T1R, T2, T3) = 84 864 tuples with each of the "
